@@ -147,10 +147,15 @@ def main():
         prev_checks = old.get("checks_run", {})
         prev_checks.update(res["checks"])
         res["checks"] = prev_checks
+        desc = {}
+        try:
+            desc = json.load(open(os.path.join(VERIF, "seeded", "descriptions.json"))).get("%s-%s" % (a.prop, a.n), {})
+        except Exception:
+            pass
         meta = {
             "property": a.prop,
-            "breaks": "see README.md (written by the seeding sub-agent)",
-            "needs_to_manifest": "see README.md",
+            "breaks": ("property %s: %s" % (a.prop, desc["change"])) if desc else "see README.md (written by the seeding sub-agent)",
+            "needs_to_manifest": desc.get("needs", "see README.md"),
             "confirmed_by": "tools/verify_seed.py in scratch worktree %s: patched tree builds; pinned suite: no baseline test "
                             "stops passing (tests failing once under load were re-run alone); demo fails with the change "
                             "and passes without it" % tree,
